@@ -746,6 +746,33 @@ def A_dataclass_defaults(cls, prefix, fields):
   return _closed(emit)
 
 
+_NONDET_CALLS = {'hash', 'id', 'set', 'frozenset', 'vars', 'dir', 'globals', 'locals', 'input', 'open'}
+_NONDET_PREFIXES = ('time.', 'os.', 'uuid.', 'random.', 'np.random.', 'numpy.random.', 'secrets.', 'datetime.', 'threading.',
+                    'sys.')
+
+
+def A_no_nondeterminism(quals, allowed=()):
+  """Syntactic side condition for "deterministic / identical on re-iteration / identical in another
+  process": the anchored functions call nothing whose result depends on the process (hash order, object
+  identity, clock, environment, process-wide or unseeded RNG).  `allowed`: exact call sources that are
+  modelled (e.g. the RandomState seeded from self._seed).  Emits a comment; fails closed otherwise."""
+  def emit(tree):
+    for qual in quals:
+      fd = find_def(tree, qual)
+      for n in ast.walk(fd):
+        if isinstance(n, (ast.Import, ast.ImportFrom, ast.Global, ast.Nonlocal)):
+          raise Unsupported(f'{qual}: import / global inside the function')
+        if isinstance(n, ast.Call):
+          d = _dotted_or_none(n.func)
+          src = ast.unparse(n)
+          if src in allowed or d is None:
+            continue
+          if d in _NONDET_CALLS or d.startswith(_NONDET_PREFIXES):
+            raise Unsupported(f'{qual}: call whose result may differ between runs / processes: {src[:80]}')
+    return '(* checked syntactically: no hash / id / clock / environment / unseeded RNG in ' + ', '.join(quals) + ' *)'
+  return _closed(emit)
+
+
 def A_paddedloop_checked(qual, coqname, params, names):
   """PaddedBatchView.__iter__ once more, with pad_examples bound to the TRANSLATED
   gen_pad_examples (option batch): the elements are `option batch`."""
@@ -851,6 +878,12 @@ MODULES = {
                        'self._final_batch_size = _pick_final_batch_size(\n'
                        '    self._data_size, self._batch_size, hparams.num_batch_size_buckets)\n'),
             A_pure_iter(['BatchView.__iter__', 'PaddedBatchView.__iter__']),
+            A_no_nondeterminism(['BatchView.__iter__', 'PaddedBatchView.__iter__', 'BatchView.__init__',
+                                 'PaddedBatchView.__init__', '_pick_final_batch_size', 'pad_examples', 'attach_mask',
+                                 'slice_examples', 'num_examples', 'assert_consistent_rows', 'BatchPreprocessor.__call__',
+                                 'BatchPreprocessor.__init__', 'ClientDataset.__init__', 'ClientDataset.__len__',
+                                 'ClientDataset.__getitem__', 'ClientDataset.all_examples', 'ClientDataset.batch',
+                                 'ClientDataset.padded_batch']),
             A_paddedloop_checked('PaddedBatchView.__iter__', 'padded_batch_view_iter_checked',
                                  [('raw', 'rows'), ('data_size', 'Z'), ('batch_size', 'Z'), ('final_batch_size', 'Z')],
                                  names={'self._data_size': 'data_size', 'self._batch_size': 'batch_size',
@@ -884,6 +917,9 @@ MODULES = {
                        'self._batch_size = hparams.batch_size\nself._seed = hparams.seed\n'
                        'self._skip_shuffle = hparams.skip_shuffle\n', drop_assign_to='self._num_steps'),
             A_pure_iter(['ShuffleRepeatBatchView.__iter__']),
+            A_no_nondeterminism(['ShuffleRepeatBatchView.__iter__', 'ShuffleRepeatBatchView.__init__',
+                                 'ClientDataset.shuffle_repeat_batch'],
+                                allowed=('np.random.RandomState(self._seed)',)),
             A_generator('ShuffleRepeatBatchView.__iter__', 'srb_iter',
                         [('data_size', 'Z'), ('batch_size', 'Z'), ('self_num_steps', 'optZ'), ('skip_shuffle', 'bool')],
                         names={'self._data_size': 'data_size', 'self._batch_size': 'batch_size',
